@@ -1,47 +1,918 @@
+// C01 harness: the real RemoteLockFile under a cooperative scheduler.
+//
+// Every contender of a scenario owns a lock object created for the same id and directory through its own
+// scheduling wrapper (internal/lsched) around ONE shared backend (OS directory or afero MemMapFs).  Each backend
+// operation on the lock directory / heartbeat file of each thread (API threads and heartbeat writers) blocks until
+// the scenario's schedule releases it, so an interleaving at filesystem-operation granularity is replayed
+// deterministically.  Staleness verdicts are inputs of the schedule (fabricated ModTime).
+//
+// Oracle (independent of the Coq model, evaluated on what the implementation did):
+//   - a Remove of the lock directory that destroys a directory whose creator has acquired (or is acquiring) the
+//     lock, has not begun to release it and is alive;
+//   - two live holders at the same instant (an acquire returning success while another live contender holds).
+//
+// Correspondence: every scenario on the OS back end is emitted as a Coq case (schedule + the observation of every
+// step + final number of live holders + the harness's own "bad removal" ghost); coq/C01/Model.v must reproduce it.
 package main
 
 import (
 	"context"
+	"errors"
 	"fmt"
+	"math/rand"
+	"os"
+	"path/filepath"
+	"sort"
+	"strings"
+	"sync"
+	"sync/atomic"
 	"time"
 
+	"github.com/ARM-software/golang-utils/utils/commonerrors"
 	"github.com/ARM-software/golang-utils/utils/filesystem"
 	"github.com/spf13/afero"
 
-	"verif/harness/internal/shim"
+	"verif/harness/internal/h"
+	"verif/harness/internal/lsched"
 )
 
-func main() {
-	mem := afero.NewMemMapFs()
-	_ = mem.MkdirAll("/locks", 0o755)
-	sh := shim.New(mem, func(op *shim.Op) error { return nil })
-	vfs := filesystem.NewVirtualFileSystem(sh, filesystem.InMemoryFS, filesystem.IdentityPathConverterFunc).(*filesystem.VFS)
-	l := filesystem.NewGenericRemoteLockFile(vfs, "x", "/locks", true)
-	dump := func(tag string) {
-		fmt.Println("==", tag)
-		for _, o := range sh.Log() {
-			fmt.Printf("  %-14s %-28s flag=%x err=%v\n", o.Name, o.Path, o.Flag, o.Err)
+const waitT = 15 * time.Second
+
+type Item struct {
+	K     string `json:"k"` // call | step | kill
+	C     int    `json:"c"`
+	HB    int    `json:"hb,omitempty"` // step: 0 = API thread, k+1 = heartbeat writer k
+	Api   string `json:"api,omitempty"`
+	Stale bool   `json:"stale,omitempty"`
+	// macros (expanded into steps while running; the executed steps are what is recorded and replayed):
+	// K = "until": step C's API thread until it is blocked at operation Op on Class (the Skip+1-th time), without executing it;
+	// K = "finish": step C's API thread until its call returns.  Stale = verdict given to every Stat on the way (when allowed).
+	Op    string `json:"op,omitempty"`
+	Class string `json:"class,omitempty"`
+	Skip  int    `json:"skip,omitempty"`
+}
+
+type Scenario struct {
+	Tag     string `json:"tag"`
+	Backend string `json:"backend"` // os | mem
+	Ovr     []bool `json:"ovr"`
+	Items   []Item `json:"items"`
+	Seed    int64  `json:"seed,omitempty"` // >0: items are generated online from this seed (MaxItems of them)
+	Max     int    `json:"max,omitempty"`
+}
+
+type StepObs struct {
+	Op  int `json:"op"`
+	Res int `json:"res"`
+	Ret int `json:"ret"`
+}
+
+type fail struct {
+	Sig, What string
+}
+
+type Outcome struct {
+	Items   []Item
+	Obs     []*StepObs
+	Holders int
+	Bad     bool
+	Fails   []fail
+	Stuck   string
+	Invalid string // an item of a fixed schedule was not executable (replay of a foreign tree)
+	Acq     int    // successful acquires
+	Rel     int    // successful unlocks
+	Kinds   map[string]int
+}
+
+var apis = []string{"TryLock", "Lock", "LockWithTimeout", "Unlock"}
+
+func apiCode(a string) int {
+	for i, x := range apis {
+		if x == a {
+			return i
 		}
-		sh.ResetLog()
 	}
-	ctx := context.Background()
-	fmt.Println(l.TryLock(ctx))
-	time.Sleep(20 * time.Millisecond)
-	dump("TryLock ok (+hb)")
-	l2 := filesystem.NewGenericRemoteLockFile(vfs, "x", "/locks", true)
-	fmt.Println(l2.TryLock(ctx))
-	dump("TryLock contended")
-	fmt.Println(l2.(*filesystem.RemoteLockFile).IsStale())
-	dump("IsStale")
-	fmt.Println(l.Unlock(ctx))
-	dump("Unlock")
-	fmt.Println(l.Unlock(ctx))
-	dump("Unlock absent")
-	fmt.Println(l2.(*filesystem.RemoteLockFile).IsStale())
-	dump("IsStale absent")
-	_ = mem.Mkdir("/locks/lockfile-x", 0o755)
-	fmt.Println(l2.(*filesystem.RemoteLockFile).IsStale())
-	dump("IsStale empty dir")
-	fmt.Println(l2.Unlock(ctx))
-	dump("Unlock empty dir")
+	return 3
+}
+
+func opCode(op, class string, n int) int {
+	switch op + ":" + class {
+	case "Mkdir:dir":
+		return 0
+	case "Remove:dir":
+		return 1
+	case "Remove:hb":
+		return 2
+	case "Stat:dir":
+		return 3
+	case "Stat:hb":
+		return 4
+	case "Open:dir":
+		return 5
+	case "Readdir:dir":
+		if n == 1 {
+			return 6
+		}
+		if n < 0 {
+			return 7
+		}
+	case "Readdir:hb":
+		if n == 1 {
+			return 12
+		}
+		if n < 0 {
+			return 13
+		}
+	case "Open:hb":
+		return 11
+	case "OpenFile:hb":
+		return 8
+	case "Chtimes:dir":
+		return 9
+	case "Chtimes:hb":
+		return 10
+	}
+	return 99
+}
+
+func resCode(res string) int {
+	switch res {
+	case "ok":
+		return 0
+	case "exist":
+		return 1
+	case "notexist":
+		return 2
+	case "notempty":
+		return 3
+	case "isdir":
+		return 5
+	case "isfile":
+		return 6
+	case "eof:0":
+		return 7
+	case "ok:0":
+		return 8
+	case "ok:1":
+		return 9
+	case "eof:1":
+		return 10
+	}
+	return 4
+}
+
+func retCode(err error) int {
+	switch {
+	case err == nil:
+		return 1
+	case commonerrors.Any(err, commonerrors.ErrLocked):
+		return 2
+	case commonerrors.Any(err, commonerrors.ErrStaleLock):
+		return 3
+	case commonerrors.Any(err, commonerrors.ErrCancelled, commonerrors.ErrTimeout) || errors.Is(err, context.Canceled):
+		return 4
+	}
+	return 5
+}
+
+// ---------------- engine ----------------
+
+type contender struct {
+	lock    filesystem.ILock
+	inCall  bool
+	api     string
+	ret     atomic.Pointer[int]
+	holds   bool
+	alive   bool
+	eng     int // generation created and not yet begun to release, -1 none
+	mkThis  bool
+	hbPC    []int  // per heartbeat writer: 0 at OpenFile, 1 at Chtimes, 2 done
+	hbCanc  []bool // cancelled
+	done    chan struct{}
+}
+
+type engine struct {
+	sc      *Scenario
+	s       *lsched.Sched
+	cs      []*contender
+	ctx     context.Context
+	cancel  context.CancelFunc
+	root    string
+	curGen  int
+	nextGen int
+	creator map[int]int
+	lastBad string
+	out     *Outcome
+	wg      sync.WaitGroup
+}
+
+func newEngine(sc *Scenario, runRoot string) (*engine, error) {
+	e := &engine{sc: sc, curGen: -1, creator: map[int]int{}, out: &Outcome{Kinds: map[string]int{}}}
+	var inner afero.Fs
+	var base string
+	var kind filesystem.FilesystemType
+	switch sc.Backend {
+	case "mem":
+		inner = afero.NewMemMapFs()
+		base = "/locks"
+		_ = inner.MkdirAll(base, 0o755)
+		kind = filesystem.InMemoryFS
+	default:
+		d, err := os.MkdirTemp(runRoot, "s")
+		if err != nil {
+			return nil, err
+		}
+		e.root = d
+		base = d
+		inner = filesystem.NewExtendedOsFs()
+		kind = filesystem.StandardFS
+	}
+	dirPath := filepath.Join(base, "lockfile-x")
+	e.s = lsched.New(dirPath, filepath.Join(dirPath, "x.lock"))
+	e.ctx, e.cancel = context.WithCancel(context.Background())
+	for c, ov := range sc.Ovr {
+		vfs, ok := filesystem.NewVirtualFileSystem(e.s.Wrap(inner, c), kind, filesystem.IdentityPathConverterFunc).(*filesystem.VFS)
+		if !ok {
+			return nil, errors.New("not a VFS")
+		}
+		e.cs = append(e.cs, &contender{lock: filesystem.NewGenericRemoteLockFile(vfs, "x", base, ov), alive: true, eng: -1})
+	}
+	return e, nil
+}
+
+func (e *engine) liveOwner() bool {
+	if e.curGen < 0 {
+		return false
+	}
+	y := e.cs[e.creator[e.curGen]]
+	return y.alive && y.eng == e.curGen
+}
+
+func (e *engine) fail(sig, what string) {
+	e.out.Fails = append(e.out.Fails, fail{sig, what})
+}
+
+// available items in the present state (for the online generator)
+func (e *engine) avail() (calls, steps, hbs, kills []Item) {
+	for c, x := range e.cs {
+		if !x.alive {
+			continue
+		}
+		if x.inCall {
+			steps = append(steps, Item{K: "step", C: c})
+		} else if x.holds {
+			calls = append(calls, Item{K: "call", C: c, Api: "Unlock"})
+			kills = append(kills, Item{K: "kill", C: c})
+		} else {
+			for _, a := range apis[:3] {
+				calls = append(calls, Item{K: "call", C: c, Api: a})
+			}
+		}
+		for k, pc := range x.hbPC {
+			if pc != 2 {
+				hbs = append(hbs, Item{K: "step", C: c, HB: k + 1})
+			}
+		}
+	}
+	return
+}
+
+func (e *engine) returned(c int) func() bool {
+	x := e.cs[c]
+	return func() bool { return x.ret.Load() != nil }
+}
+
+// exec runs one item; returns false if the scenario cannot go on (stuck / invalid).
+func (e *engine) exec(it Item) bool {
+	if it.C < 0 || it.C >= len(e.cs) {
+		e.out.Invalid = "no such contender"
+		return false
+	}
+	x := e.cs[it.C]
+	switch it.K {
+	case "kill":
+		if !x.alive || !x.holds || x.inCall {
+			e.out.Invalid = "kill not enabled"
+			return false
+		}
+		x.alive = false
+		e.out.Items = append(e.out.Items, it)
+		e.out.Obs = append(e.out.Obs, nil)
+		e.out.Kinds["kill"]++
+		return true
+	case "call":
+		if !x.alive || x.inCall || (it.Api == "Unlock") != x.holds {
+			e.out.Invalid = "call not enabled"
+			return false
+		}
+		if it.Api == "Unlock" {
+			// the live heartbeat writer must be at its OpenFile (not asleep) when the cancel store is cancelled, so that
+			// what it does afterwards is determined by the schedule and not by the wall clock
+			if k := len(x.hbPC) - 1; k >= 0 && x.hbPC[k] != 2 && !x.hbCanc[k] {
+				if p, _ := e.s.WaitPending(lsched.Actor{C: it.C, HB: k}, nil, waitT); p == nil {
+					e.out.Stuck = "heartbeat writer did not come back"
+					return false
+				}
+			}
+			for k := range x.hbCanc {
+				x.hbCanc[k] = true
+			}
+			x.holds = false
+			x.eng = -1
+		}
+		x.inCall, x.api, x.mkThis = true, it.Api, false
+		x.ret.Store(nil)
+		x.done = make(chan struct{})
+		e.wg.Add(1)
+		go func(api string, done chan struct{}) {
+			defer e.wg.Done()
+			var err error
+			switch api {
+			case "TryLock":
+				err = x.lock.TryLock(e.ctx)
+			case "Lock":
+				err = x.lock.Lock(e.ctx)
+			case "LockWithTimeout":
+				err = x.lock.LockWithTimeout(e.ctx, time.Hour)
+			default:
+				err = x.lock.Unlock(e.ctx)
+			}
+			rc := retCode(err)
+			x.ret.Store(&rc)
+			close(done)
+			e.s.Notify()
+		}(it.Api, x.done)
+		if p, ok := e.s.WaitPending(lsched.Main(it.C), e.returned(it.C), waitT); p == nil && !ok {
+			e.out.Stuck = "call did not reach a backend operation"
+			return false
+		}
+		e.out.Items = append(e.out.Items, it)
+		e.out.Obs = append(e.out.Obs, nil)
+		e.out.Kinds["call:"+it.Api]++
+		if x.ret.Load() != nil { // returned without any backend operation (not expected)
+			e.finishCall(it.C, nil)
+		}
+		return true
+	case "until", "finish":
+		skip := it.Skip
+		for n := 0; n < 5000; n++ {
+			if !x.inCall {
+				if it.K == "until" {
+					e.out.Invalid = "call returned before reaching " + it.Op + " " + it.Class
+					return false
+				}
+				return true
+			}
+			p, _ := e.s.WaitPending(lsched.Main(it.C), e.returned(it.C), waitT)
+			if p == nil {
+				e.out.Stuck = "API thread neither pending nor returned"
+				return false
+			}
+			if it.K == "until" && p.Op == it.Op && p.Class == it.Class {
+				if skip == 0 {
+					return true
+				}
+				skip--
+			}
+			if !e.stepMain(Item{K: "step", C: it.C, Stale: it.Stale && !e.liveOwner() && e.curGen >= 0}) {
+				return false
+			}
+		}
+		e.out.Stuck = "macro did not end"
+		return false
+	case "step":
+		if !x.alive {
+			e.out.Invalid = "step of a dead contender"
+			return false
+		}
+		if it.HB > 0 {
+			return e.stepHb(it)
+		}
+		return e.stepMain(it)
+	}
+	e.out.Invalid = "unknown item"
+	return false
+}
+
+func (e *engine) stepHb(it Item) bool {
+	x := e.cs[it.C]
+	k := it.HB - 1
+	if k >= len(x.hbPC) || x.hbPC[k] == 2 {
+		e.out.Invalid = "heartbeat step not enabled"
+		return false
+	}
+	a := lsched.Actor{C: it.C, HB: k}
+	p, _ := e.s.WaitPending(a, nil, waitT)
+	if p == nil {
+		e.out.Stuck = "heartbeat writer not pending"
+		return false
+	}
+	res := e.s.Release(p, false)
+	o := &StepObs{Op: opCode(p.Op, p.Class, p.N), Res: resCode(res)}
+	it.Stale = false
+	e.out.Items = append(e.out.Items, it)
+	e.out.Obs = append(e.out.Obs, o)
+	e.out.Kinds["hb:"+p.Op+":"+res]++
+	if p.Op == "OpenFile" {
+		x.hbPC[k] = 1
+		if q, _ := e.s.WaitPending(a, nil, waitT); q == nil {
+			e.out.Stuck = "heartbeat writer did not reach Chtimes"
+			return false
+		}
+	} else {
+		if x.hbCanc[k] {
+			x.hbPC[k] = 2
+		} else {
+			x.hbPC[k] = 0 // asleep for one period, then at OpenFile again
+		}
+	}
+	return true
+}
+
+func (e *engine) stepMain(it Item) bool {
+	c := it.C
+	x := e.cs[c]
+	if !x.inCall {
+		e.out.Invalid = "step outside a call"
+		return false
+	}
+	p, _ := e.s.WaitPending(lsched.Main(c), e.returned(c), waitT)
+	if p == nil {
+		e.out.Stuck = "API thread neither pending nor returned"
+		return false
+	}
+	stale := it.Stale && p.Op == "Stat"
+	if stale && e.liveOwner() {
+		// the staleness oracle never judges a live holder's generation stale (the property's proviso)
+		e.out.Invalid = "stale verdict on a live holder"
+		stale = false
+	}
+	it.Stale = stale
+	res := e.s.Release(p, stale)
+	o := &StepObs{Op: opCode(p.Op, p.Class, p.N), Res: resCode(res)}
+	e.out.Kinds[fmt.Sprintf("%s:%s:%s:%s", x.api, p.Op, p.Class, res)]++
+	// ---- the harness's own ghost + oracle ----
+	switch {
+	case p.Op == "Mkdir" && res == "ok":
+		e.curGen = e.nextGen
+		e.nextGen++
+		e.creator[e.curGen] = c
+		x.eng = e.curGen
+		x.mkThis = true
+	case p.Op == "Remove" && p.Class == "dir" && res == "ok":
+		if e.liveOwner() {
+			y := e.creator[e.curGen]
+			e.out.Bad = true
+			switch {
+			case x.api == "Unlock" && y != c:
+				e.lastBad = "K1"
+				e.fail("K1-unlock-retry-destroys-successor-lock", fmt.Sprintf("contender %d, inside Unlock, removed the lock directory that contender %d had created afterwards and still holds", c, y))
+			case x.api != "Unlock" && y != c:
+				e.lastBad = "K2"
+				e.fail("K2-stale-takeover-destroys-fresh-lock", fmt.Sprintf("contender %d, releasing a lock it had judged stale, removed the fresh lock directory of contender %d", c, y))
+			default:
+				e.lastBad = "self"
+				e.fail("removal-of-own-held-lock", fmt.Sprintf("contender %d removed the directory it holds outside a release", c))
+			}
+		}
+		e.curGen = -1
+	}
+	e.out.Items = append(e.out.Items, it)
+	e.out.Obs = append(e.out.Obs, o)
+	q, ok := e.s.WaitPending(lsched.Main(c), e.returned(c), waitT)
+	if q == nil && !ok {
+		e.out.Stuck = "API thread lost after " + p.Op
+		return false
+	}
+	if q == nil {
+		return e.finishCall(c, o)
+	}
+	return true
+}
+
+func (e *engine) finishCall(c int, o *StepObs) bool {
+	x := e.cs[c]
+	<-x.done
+	rc := *x.ret.Load()
+	if o != nil {
+		o.Ret = rc
+	}
+	x.inCall = false
+	e.out.Kinds[fmt.Sprintf("ret:%s:%d", x.api, rc)]++
+	if x.api == "Unlock" {
+		if rc == 1 {
+			e.out.Rel++
+		}
+		return true
+	}
+	if rc != 1 {
+		return true
+	}
+	e.out.Acq++
+	if !x.mkThis {
+		e.fail("acquire-success-without-mkdir", fmt.Sprintf("contender %d: %s returned success although no Mkdir of the call succeeded", c, x.api))
+	}
+	var others []string
+	for d, y := range e.cs {
+		if d != c && y.holds && y.alive {
+			others = append(others, fmt.Sprint(d))
+		}
+	}
+	x.holds = true
+	if len(others) > 0 {
+		cause := "unexplained"
+		if e.lastBad != "" {
+			cause = "after-" + e.lastBad
+		}
+		e.fail("overlap:"+cause, fmt.Sprintf("contender %d acquired the lock while contender(s) %s hold it, alive, and have not begun to release", c, strings.Join(others, ",")))
+	}
+	// the new heartbeat writer arrives at its first OpenFile
+	k := len(x.hbPC)
+	x.hbPC = append(x.hbPC, 0)
+	x.hbCanc = append(x.hbCanc, false)
+	if p, _ := e.s.WaitPending(lsched.Actor{C: c, HB: k}, nil, waitT); p == nil {
+		e.out.Stuck = "heartbeat writer did not start"
+		return false
+	}
+	return true
+}
+
+func (e *engine) finish() {
+	for _, x := range e.cs {
+		if x.holds && x.alive {
+			e.out.Holders++
+		}
+	}
+	e.cancel()
+	e.s.Free()
+	ch := make(chan struct{})
+	go func() { e.wg.Wait(); close(ch) }()
+	select {
+	case <-ch:
+	case <-time.After(waitT):
+		if e.out.Stuck == "" {
+			e.out.Stuck = "API calls did not return after cancellation"
+		}
+	}
+	if e.root != "" {
+		time.Sleep(2 * time.Millisecond)
+		_ = os.RemoveAll(e.root)
+	}
+}
+
+// ---------------- online generator ----------------
+
+func (e *engine) generate(rng *rand.Rand, max int) {
+	cur := -1 // API thread being run
+	for n := 0; n < max; n++ {
+		calls, steps, hbs, kills := e.avail()
+		var it Item
+		cont := false
+		if cur >= 0 && e.cs[cur].inCall && e.cs[cur].alive && rng.Intn(100) < 93 {
+			it = Item{K: "step", C: cur}
+			cont = true
+		}
+		if !cont {
+			type w struct {
+				it Item
+				w  int
+			}
+			var ws []w
+			for _, i := range steps {
+				ws = append(ws, w{i, 8})
+			}
+			for _, i := range calls {
+				wt := 3
+				if i.Api == "Unlock" {
+					wt = 6
+				}
+				ws = append(ws, w{i, wt})
+			}
+			for _, i := range hbs {
+				ws = append(ws, w{i, 2})
+			}
+			for _, i := range kills {
+				ws = append(ws, w{i, 1})
+			}
+			if len(ws) == 0 {
+				return
+			}
+			tot := 0
+			for _, x := range ws {
+				tot += x.w
+			}
+			r := rng.Intn(tot)
+			for _, x := range ws {
+				if r < x.w {
+					it = x.it
+					break
+				}
+				r -= x.w
+			}
+		}
+		if it.K == "step" && it.HB == 0 {
+			cur = it.C
+			if p := e.s.Peek(lsched.Main(it.C)); p != nil && p.Op == "Stat" && e.curGen >= 0 && !e.liveOwner() {
+				it.Stale = rng.Intn(100) < 70
+			}
+		} else if it.K == "call" {
+			cur = it.C
+		}
+		if !e.exec(it) {
+			return
+		}
+	}
+}
+
+func runScenario(sc *Scenario, runRoot string) *Outcome {
+	e, err := newEngine(sc, runRoot)
+	if err != nil {
+		return &Outcome{Stuck: "setup: " + err.Error(), Kinds: map[string]int{}}
+	}
+	if sc.Seed > 0 {
+		e.generate(rand.New(rand.NewSource(sc.Seed)), sc.Max)
+	} else {
+		for _, it := range sc.Items {
+			if !e.exec(it) {
+				break
+			}
+		}
+	}
+	e.finish()
+	return e.out
+}
+
+// ---------------- Coq term ----------------
+
+func coqCase(sc *Scenario, o *Outcome) string {
+	var b strings.Builder
+	b.WriteString("(mkCase [")
+	for i, v := range sc.Ovr {
+		if i > 0 {
+			b.WriteString(";")
+		}
+		b.WriteString(h.Bool(v))
+	}
+	b.WriteString("]%list [")
+	for i, it := range o.Items {
+		if i > 0 {
+			b.WriteString(";")
+		}
+		switch it.K {
+		case "call":
+			fmt.Fprintf(&b, "C_ %d %d", it.C, apiCode(it.Api))
+		case "kill":
+			fmt.Fprintf(&b, "K_ %d", it.C)
+		default:
+			st := 0
+			if it.Stale {
+				st = 1
+			}
+			ob := o.Obs[i]
+			fmt.Fprintf(&b, "S_ %d %d %d %d %d %d", it.C, it.HB, st, ob.Op, ob.Res, ob.Ret)
+		}
+	}
+	fmt.Fprintf(&b, "]%%list %d %s)", o.Holders, h.Bool(o.Bad))
+	s := b.String()
+	// numbers are nat: the case files open Z_scope
+	return "(" + s + ")%nat"
+}
+
+// ---------------- deterministic scenarios ----------------
+
+func call(c int, api string) Item { return Item{K: "call", C: c, Api: api} }
+func step(c int) Item             { return Item{K: "step", C: c} }
+func stale(c int) Item            { return Item{K: "step", C: c, Stale: true} }
+func hb(c, k int) Item            { return Item{K: "step", C: c, HB: k + 1} }
+func kill(c int) Item             { return Item{K: "kill", C: c} }
+func rep(it Item, n int) []Item {
+	out := make([]Item, n)
+	for i := range out {
+		out[i] = it
+	}
+	return out
+}
+func cat(xs ...[]Item) []Item {
+	var out []Item
+	for _, x := range xs {
+		out = append(out, x...)
+	}
+	return out
+}
+func one(xs ...Item) []Item { return xs }
+func until(c int, op, class string, st bool) Item {
+	return Item{K: "until", C: c, Op: op, Class: class, Stale: st}
+}
+func untilN(c int, op, class string, skip int, st bool) Item {
+	return Item{K: "until", C: c, Op: op, Class: class, Skip: skip, Stale: st}
+}
+func fin(c int, st bool) Item { return Item{K: "finish", C: c, Stale: st} }
+
+// K1 (DESIGN D19): A holds and unlocks; after A's rmdir, B acquires; A's post-removal existence check sees B's
+// directory, A retries Rm and destroys B's lock; C acquires while B holds.
+func scK1(backend string) *Scenario {
+	return &Scenario{Tag: "K1", Backend: backend, Ovr: []bool{false, false, false}, Items: one(
+		call(0, "TryLock"), fin(0, false),
+		call(0, "Unlock"), until(0, "Remove", "dir", false), step(0), // A is now at the Stat of Unlock's Exists
+		call(1, "TryLock"), fin(1, false), // B holds
+		fin(0, false), // A: "still exists" -> retry -> removes B's directory
+		call(2, "TryLock"), fin(2, false), // C holds as well
+	)}
+}
+
+// K2 (DESIGN D20): A died holding; B and C (override) both judge A's lock stale; B releases it and re-acquires;
+// C's pending rmdir removes B's fresh directory; C acquires as well.
+func scK2(backend string) *Scenario {
+	return &Scenario{Tag: "K2", Backend: backend, Ovr: []bool{false, true, true}, Items: one(
+		call(0, "TryLock"), fin(0, false), kill(0),
+		call(1, "TryLock"), until(1, "Remove", "dir", true),
+		call(2, "TryLock"), until(2, "Remove", "dir", true),
+		fin(1, false), // B removes A's directory and acquires
+		step(2),       // C removes B's directory
+		fin(2, false), // C acquires
+	)}
+}
+
+func corners() []*Scenario {
+	var out []*Scenario
+	add := func(tag string, ovr []bool, items ...Item) {
+		out = append(out, &Scenario{Tag: tag, Backend: "os", Ovr: ovr, Items: items})
+	}
+	ff, tt := []bool{false, false}, []bool{true, true}
+	for ai, a := range apis[:3] {
+		// plain cycle, twice, with a heartbeat in between
+		add("cycle:"+a, ff, call(0, a), fin(0, false), hb(0, 0), hb(0, 0), call(0, "Unlock"), fin(0, false),
+			call(1, a), fin(1, false), call(1, "Unlock"), fin(1, false), call(0, a), fin(0, false), call(0, "Unlock"), fin(0, false))
+		// contended: second contender fails / polls while the first holds, succeeds after the release
+		if a == "TryLock" {
+			add("contended:"+a, ff, call(0, a), fin(0, false), hb(0, 0), hb(0, 0), call(1, a), fin(1, false),
+				call(0, "Unlock"), fin(0, false), call(1, a), fin(1, false))
+		} else {
+			add("contended:"+a, ff, call(0, "TryLock"), fin(0, false), hb(0, 0), hb(0, 0), call(1, a), untilN(1, "Mkdir", "dir", 2, false),
+				call(0, "Unlock"), fin(0, false), fin(1, false), call(1, "Unlock"), fin(1, false))
+		}
+		// dead holder: without override -> stale-lock error; with override -> taken over (LockWithTimeout: cancelled)
+		add("dead-noovr:"+a, ff, call(0, "TryLock"), fin(0, false), kill(0), call(1, a), fin(1, true))
+		if a == "LockWithTimeout" {
+			// the Unlock inside ReleaseIfStale cancels the action's own context: "cancelled", nothing removed; a TryLock takes over
+			add("dead-ovr:"+a, tt, call(0, "TryLock"), fin(0, false), hb(0, 0), hb(0, 0), kill(0), call(1, a), fin(1, true),
+				call(1, "TryLock"), fin(1, true), call(1, "Unlock"), fin(1, false))
+		} else {
+			add("dead-ovr:"+a, tt, call(0, "TryLock"), fin(0, false), hb(0, 0), hb(0, 0), kill(0), call(1, a), fin(1, true),
+				call(1, "Unlock"), fin(1, false), call(1, a), fin(1, false))
+		}
+		_ = ai
+	}
+	// dead holder whose heartbeat file is judged stale but the second look says fresh (ReleaseIfStale does nothing)
+	add("stale-then-fresh", tt, call(0, "TryLock"), fin(0, false), hb(0, 0), hb(0, 0), kill(0),
+		call(1, "TryLock"), untilN(1, "Stat", "hb", 0, false), stale(1), fin(1, false))
+	// a heartbeat write lands between the releaser's listing and its rmdir: rmdir fails (not empty) / file reappears
+	add("hb-reappears", ff, call(0, "TryLock"), fin(0, false), hb(0, 0), hb(0, 0), hb(0, 0), call(0, "Unlock"),
+		until(0, "Remove", "hb", false), step(0), hb(0, 0), fin(0, false))
+	add("hb-before-rmdir", ff, call(0, "TryLock"), fin(0, false), call(0, "Unlock"),
+		until(0, "Remove", "dir", false), hb(0, 0), fin(0, false), hb(0, 0))
+	// a cancelled heartbeat writer of the previous holder writes into the successor's directory
+	add("old-hb-into-new-dir", ff, call(0, "TryLock"), fin(0, false), call(0, "Unlock"), fin(0, false),
+		call(1, "TryLock"), fin(1, false), hb(0, 0), hb(0, 0), hb(1, 0), call(1, "Unlock"), fin(1, false))
+	// release interleaved with an acquire that fails at every point before the rmdir
+	add("acquire-during-release", ff, call(0, "TryLock"), fin(0, false), hb(0, 0), hb(0, 0), call(0, "Unlock"),
+		until(0, "Remove", "hb", false), call(1, "TryLock"), fin(1, false), step(0), call(1, "TryLock"), fin(1, false),
+		until(0, "Remove", "dir", false), call(1, "TryLock"), fin(1, false), fin(0, false), call(1, "TryLock"), fin(1, false))
+	// two stale-releasers, serialised (A2 respected): exactly one takes over
+	add("two-overriders-serial", []bool{false, true, true}, call(0, "TryLock"), fin(0, false), kill(0),
+		call(1, "TryLock"), fin(1, true), call(2, "TryLock"), fin(2, false))
+	// four contenders in turn
+	add("four", []bool{false, true, false, true}, call(0, "Lock"), fin(0, false), call(1, "TryLock"), fin(1, false),
+		call(2, "LockWithTimeout"), untilN(2, "Mkdir", "dir", 1, false), call(0, "Unlock"), fin(0, false), fin(2, false),
+		call(3, "TryLock"), fin(3, false), call(2, "Unlock"), fin(2, false), call(3, "Lock"), fin(3, false))
+	return out
+}
+
+// ---------------- main ----------------
+
+type job struct {
+	sc  *Scenario
+	out *Outcome
+}
+
+func runAll(jobs []*job, runRoot string, par int) {
+	var wg sync.WaitGroup
+	ch := make(chan *job)
+	for i := 0; i < par; i++ {
+		wg.Add(1)
+		go func() {
+			defer wg.Done()
+			for j := range ch {
+				j.out = runScenario(j.sc, runRoot)
+			}
+		}()
+	}
+	for _, j := range jobs {
+		ch <- j
+	}
+	close(ch)
+	wg.Wait()
+}
+
+func replayOf(sc *Scenario, o *Outcome) *Scenario {
+	return &Scenario{Tag: sc.Tag, Backend: sc.Backend, Ovr: sc.Ovr, Items: o.Items}
+}
+
+func main() {
+	r := h.Init("C01")
+	r.Imports = []string{"GU.C01.Model"}
+	r.ShardSize = 40
+	r.Rule("scheduled scenarios on the real RemoteLockFile (2..4 lock objects for one id/directory, OS directory and in-memory back ends, with/without stale override, dead holders, TryLock/Lock/LockWithTimeout/Unlock cycles), one backend operation per step; " +
+		"distinct = distinct sequences of (thread, operation, result class, return kind) with at least two acquire attempts")
+	runRoot, err := os.MkdirTemp("", "verif-c01-*")
+	if err != nil {
+		r.Note("cannot create scratch directory: " + err.Error())
+		r.Finish()
+		return
+	}
+	defer os.RemoveAll(runRoot)
+
+	process := func(j *job, emitCase bool) {
+		sc, o := j.sc, j.out
+		r.Eval()
+		r.Count("scenario:" + strings.SplitN(sc.Tag, ":", 2)[0] + ":" + sc.Backend)
+		r.CountN("steps", len(o.Items))
+		keys := make([]string, 0, len(o.Kinds))
+		for k := range o.Kinds {
+			keys = append(keys, k)
+		}
+		sort.Strings(keys)
+		for _, k := range keys {
+			r.CountN("obs:"+k, o.Kinds[k])
+		}
+		if o.Stuck != "" {
+			// confirm 3 of 3 before reporting: a stall of the machine must not raise an alarm
+			again := 0
+			for i := 0; i < 2; i++ {
+				if o2 := runScenario(replayOf(sc, o), runRoot); o2.Stuck != "" {
+					again++
+				}
+			}
+			if again == 2 {
+				r.Fail("scenario-stuck", "scheduled scenario does not make progress: "+o.Stuck, replayOf(sc, o))
+			} else {
+				r.Note("scenario " + sc.Tag + " stalled once (" + o.Stuck + "), not confirmed")
+			}
+			return
+		}
+		if o.Invalid != "" {
+			r.Count("invalid-item")
+			r.Note("scenario " + sc.Tag + "/" + sc.Backend + ": " + o.Invalid)
+		}
+		for _, f := range o.Fails {
+			r.Fail(f.Sig, f.What, replayOf(sc, o))
+		}
+		if emitCase && sc.Backend == "os" {
+			term := coqCase(sc, o)
+			r.Case(term, map[string]any{"tag": sc.Tag, "ovr": sc.Ovr, "items": len(o.Items)})
+			if o.Kinds["call:TryLock"]+o.Kinds["call:Lock"]+o.Kinds["call:LockWithTimeout"] >= 2 {
+				r.Distinct(term)
+			}
+		}
+		r.Sample(map[string]any{"tag": sc.Tag, "backend": sc.Backend, "contenders": len(sc.Ovr), "steps": len(o.Items),
+			"acquired": o.Acq, "released": o.Rel, "live_holders_at_end": o.Holders, "failures": len(o.Fails)})
+	}
+
+	var rsc Scenario
+	if _, ok := r.ReplayObject(&rsc); ok {
+		j := &job{sc: &rsc}
+		j.out = runScenario(&rsc, runRoot)
+		process(j, true)
+		r.Finish()
+		return
+	}
+
+	// 1. the two known findings, replayed first on every run, on both back ends
+	var jobs []*job
+	for _, b := range []string{"os", "mem"} {
+		jobs = append(jobs, &job{sc: scK1(b)}, &job{sc: scK2(b)})
+	}
+	// 2. deterministic corner cases
+	for _, sc := range corners() {
+		jobs = append(jobs, &job{sc: sc})
+	}
+	// 3. seeded random schedules
+	nOs, nMem := r.N(140, 4000), r.N(20, 400)
+	for i := 0; i < nOs+nMem; i++ {
+		n := 2 + r.Rng.Intn(3)
+		ovr := make([]bool, n)
+		for k := range ovr {
+			ovr[k] = r.Rng.Intn(100) < 60
+		}
+		b := "os"
+		if i >= nOs {
+			b = "mem"
+		}
+		jobs = append(jobs, &job{sc: &Scenario{Tag: fmt.Sprintf("random:%d", i), Backend: b, Ovr: ovr, Seed: 1 + r.Rng.Int63n(1<<40), Max: 200 + r.Rng.Intn(250)}})
+	}
+	runAll(jobs, runRoot, 24)
+	for _, j := range jobs {
+		process(j, true)
+	}
+	r.Finish()
 }
